@@ -265,12 +265,20 @@ class GriffeLoader:
             seen: Used to avoid infinite recursion.
         """
         seen = seen or set()
+        if module.path not in seen:
+            self._expand_module_exports(module, seen)
+
+        # Make sure to expand exports in all modules.
+        for submodule in module.members.values():
+            if not submodule.is_alias and submodule.is_module:
+                self.expand_exports(submodule, seen)  # type: ignore[arg-type]
+
+    def _expand_module_exports(self, module: Module, seen: set) -> None:
+        # Expand the exports of this module only, following references to other modules' exports,
+        # but without walking down their submodules: a submodule referencing a module that is
+        # still being expanded would copy its unexpanded exports.
         seen.add(module.path)
         if module.exports is None:
-            # Nothing to expand in this module, but its submodules might declare exports.
-            for submodule in module.members.values():
-                if not submodule.is_alias and submodule.is_module and submodule.path not in seen:
-                    self.expand_exports(submodule, seen)  # type: ignore[arg-type]
             return
 
         expanded = []
@@ -288,7 +296,7 @@ class GriffeLoader:
                     logger.debug("Cannot expand '%s', try pre-loading corresponding package", export.canonical_path)
                     continue
                 if next_module.path not in seen:
-                    self.expand_exports(next_module, seen)
+                    self._expand_module_exports(next_module, seen)  # type: ignore[arg-type]
                 try:
                     expanded += [export for export in next_module.exports if export not in expanded]
                 except TypeError:
@@ -297,11 +305,6 @@ class GriffeLoader:
             else:
                 expanded.append(export)
         module.exports = expanded
-
-        # Make sure to expand exports in all modules.
-        for submodule in module.members.values():
-            if not submodule.is_alias and submodule.is_module and submodule.path not in seen:
-                self.expand_exports(submodule, seen)  # type: ignore[arg-type]
 
     def expand_wildcards(
         self,
